@@ -482,6 +482,64 @@ func Interfaces() ([]net.Interface, error) {
 	return r, nil
 }
 
+//go:norace
+func ifaceNets(i Iface) []net.Addr {
+	var r []net.Addr
+	for _, a := range i.Addrs {
+		if v4 := a.To4(); v4 != nil {
+			r = append(r, &net.IPNet{IP: append(net.IP(nil), v4...), Mask: net.CIDRMask(24, 32)})
+		} else {
+			r = append(r, &net.IPNet{IP: append(net.IP(nil), a...), Mask: net.CIDRMask(64, 128)})
+		}
+	}
+	return r
+}
+
+// IfaceAddrs replaces (*net.Interface).Addrs.
+//
+//go:norace
+func IfaceAddrs(index int) ([]net.Addr, error) {
+	s := S
+	if s == nil {
+		ifi, err := net.InterfaceByIndex(index)
+		if err != nil {
+			return nil, err
+		}
+		return ifi.Addrs()
+	}
+	for _, i := range s.ifaces {
+		if i.Index == index {
+			return ifaceNets(i), nil
+		}
+	}
+	return nil, errors.New("route ip+net: no such network interface")
+}
+
+// IfaceMulticastAddrs replaces (*net.Interface).MulticastAddrs (memberships are not modelled per interface).
+//
+//go:norace
+func IfaceMulticastAddrs(index int) ([]net.Addr, error) {
+	if _, err := IfaceAddrs(index); err != nil {
+		return nil, err
+	}
+	return nil, nil
+}
+
+// InterfaceAddrs replaces net.InterfaceAddrs.
+//
+//go:norace
+func InterfaceAddrs() ([]net.Addr, error) {
+	s := S
+	if s == nil {
+		return net.InterfaceAddrs()
+	}
+	var r []net.Addr
+	for _, i := range s.ifaces {
+		r = append(r, ifaceNets(i)...)
+	}
+	return r, nil
+}
+
 type l2sock struct {
 	fd     int
 	domain int
